@@ -125,7 +125,8 @@ def evaluate(s, ruleset, scheme, policy, rec):
     ns = unicodedata.normalize('NFC', s)
     try:
         enc = UnicodeToLatexEncoder(conversion_rules=[ruleset], replacement_latex_protection=scheme,
-                                    unknown_char_policy=policy, unknown_char_warning=False, latex_string_class=Chunks)
+                                    unknown_char_policy=policy, unknown_char_warning=(len(s) % 3 == 1),
+                                    latex_string_class=Chunks)
         res = enc.unicode_to_latex(s)
         raised = False
     except ValueError as e:
